@@ -718,7 +718,11 @@ func c10Post(rc *RunCtx) {
 		}
 		rem, _ := strconv.ParseUint(rep["rem"], 10, 64)
 		if rem < r.ELife || rep["probe_before"] != "1" {
-			viol("expires-early:"+r.Kind, fmt.Sprintf("the detector's drop_stale_sessions removes the session after %d ns, the station accepts the registration for %d ns", rem, r.ELife), r, rep)
+			sig := "expires-early:" + r.Kind
+			if rep["nchanged"] == "0" {
+				sig = "ignored:op=" + rep["op"] + ":" + r.Kind // the handler left the map untouched; the flow is only known from an earlier message
+			}
+			viol(sig, fmt.Sprintf("the detector's drop_stale_sessions removes the session after %d ns, the station accepts the registration for %d ns", rem, r.ELife), r, rep)
 			continue
 		}
 		if rem != r.ELife || rep["probe_at"] != "0" {
